@@ -890,7 +890,17 @@ pub fn run(ops: &[String]) -> Vec<String> {
 				out.put(l.clone());
 				continue;
 			}
-			exec(&mut sc, l, out, &mut base);
+			// a panic on the audio thread (inside a callback or a sample-rate change) is C01's failing input; the
+			// generator stays inside the documented domain, so none is expected (the panic is re-raised for the runner)
+			if l.starts_with("cb") || l.starts_with("rate") {
+				let r = std::panic::catch_unwind(std::panic::AssertUnwindSafe(|| exec(&mut sc, l, out, &mut base)));
+				if let Err(p) = r {
+					out.oracle_fail("audio_thread_panic", l);
+					std::panic::resume_unwind(p);
+				}
+			} else {
+				exec(&mut sc, l, out, &mut base);
+			}
 		}
 		drop(sc);
 		partition_oracle(case, &base, out);
